@@ -4,6 +4,7 @@ CONSTANTS
   MaxN = 8
   MaxSent = 3
   ExtraLens = {21, 34, 40}
+  BlockMax = 4
 SPECIFICATION Spec
-INVARIANTS LevelsWellFormed TypesRight NamesMonotone LmsSorted LevelSorted Final NoUnknown Shrinks
+INVARIANTS LevelsWellFormed TypesRight NamesMonotone NamesFaithful LmsSorted LevelSorted Final NoUnknown Shrinks
 CHECK_DEADLOCK FALSE
